@@ -3,7 +3,7 @@
 set -e
 export GOFLAGS=-mod=mod GOPROXY=off GOSUMDB=off GOTOOLCHAIN=local
 S=$1
-V=/verif
+V=${VERIF_DIR:-/verif}
 mkdir -p $S
 [ -x $V/bin/simgen ] || (cd $V/cmd/simgen && go1.26.8 build -o $V/bin/simgen .)
 rm -rf $S/repo $S/h
